@@ -275,6 +275,31 @@ def _judge(ctx, case, text, obs, exp, stats, who):
 def worker(ctx, job):
     for c in job["cases"]:
         check_case(ctx, c)
+    # update / change conditions as the conditions of a conditional auxiliary: the mark is reset by a start that is taken
+    # (also when the aux completes in that very run) and left alone by a start that is refused (family and model shared
+    # with the C08 / C10 checks)
+    import random
+    from vf.checks import c08
+    for seed in job.get("gca", []):
+        case = c08.gated_condaux_case(random.Random(seed))
+        r = c08.gated_condaux_eval(case)
+        if r[0] == "nobuild":
+            ctx.inconclusive_case("conditional aux program did not build: %s" % (r[1],))
+            continue
+        if r[0] == "raised":
+            ctx.fail("condaux/run-raised", "run raised %s" % r[1], {"program": case["text"]})
+            continue
+        ctx.event()
+        ctx.hit("condaux_marker_histories")
+        if case["oneshot"]:
+            ctx.hit("oneshot_condaux_histories")
+            ctx.hit("oneshot_condaux_starts", r[4])
+        if r[2]:
+            ctx.hit("condaux_refused_starts", r[2])
+        ctx.case(case["text"], nontrivial=bool(r[2] or r[4] >= 2), sample=None)
+        ctx.check(r[0] == "ok", "marker-condition/%s/conditional-aux-starts-differ" % case["kind"],
+                  "conditional aux guarded by `%s`%s: %s" % (case["kind"], " completing at once" if case["oneshot"] else "", r[1]),
+                  lambda: {"program": case["text"], "case": {k: v for k, v in case.items() if k != "text"}, "result": r[1]})
 
 
 PLANS = [[], [(1, 5)], [(2, 5), (3, 5)], [(1, 1), (2, 0), (3, 1)], [(3, 7), (6, 7), (7, 8)], [(1, 2), (4, 2), (5, 3), (9, 3)],
@@ -303,7 +328,10 @@ def run(ctx):
     for i in range(ctx.pick(200, 8000)):
         cases.append(random_case(rng, opts, twin=True))
     n = 16
-    ctx.shard([{"cases": cases[i::n]} for i in range(n)], timeout=ctx.pick(300, 1500))
+    gca = [ctx.rng.randrange(1 << 30) for _ in range(ctx.pick(240, 8000))]
+    ctx.floor("oneshot_condaux_starts", 60)
+    ctx.floor("condaux_refused_starts", 60)
+    ctx.shard([{"cases": cases[i::n], "gca": gca[i::n]} for i in range(n)], timeout=ctx.pick(300, 1500))
     ctx.floor("twin_clone_histories", 50)
     for k in ("taken", "refused", "same_tick_entry", "same_tick_transit", "before_first_mark", "need_updated", "need_changed",
               "with_in_frame", "with_by", "guard_refused_marker_transition", "same_frame_different_marks", "exit_writes", "taken_on_added_field_only"):
